@@ -143,7 +143,14 @@ def run_scenarios(rep, tier, seed, tag, make_scenario, oracle, n_quick, n_thorou
         scenarios = [("corpus", c) for c in corpus]
         for i in range(n):
             rng = core.rng_for(seed, f"{tag}/{i}")
-            scenarios.append((f"gen{i}", make_scenario(rng, i)))
+            scn = make_scenario(rng, i)
+            if i % 3 == 1:
+                # the same folders typed with a trailing separator (own random stream: the scenarios themselves stay as they were)
+                srng = core.rng_for(seed, f"{tag}/{i}/spell")
+                for st in scn["steps"]:
+                    if st["op"] in ("create", "verify", "verifydh", "diff", "flatten", "info") and srng.random() < 0.5:
+                        st["spell"] = "slash"
+            scenarios.append((f"gen{i}", scn))
         for label, scn in scenarios:
             impl_obs, root = world.run_impl(scn, scratch, snap=snap)
             replay = Replay(scn).build(impl_obs)
